@@ -372,7 +372,11 @@ class GeoBoxBase:
 
         if isinstance(shape, (int, float)):
             nmax = max(*self._shape)
-            return self.compute_zoom_out(nmax / shape)
+            factor = nmax / shape
+            # ``s * shape / nmax`` and not ``s / factor``: when ``factor`` is rounded
+            # down ``nmax / factor`` exceeds ``shape`` and the longest side gets one pixel more
+            ny, nx = (max(1, math.ceil(s * shape / nmax)) for s in self._shape)
+            return shape_((ny, nx)), self._affine * Affine.scale(factor, factor)
 
         shape = shape_(shape)
         sy, sx = (N / float(n) for N, n in zip(self._shape, shape.shape))
